@@ -40,7 +40,83 @@ pub struct Case {
   op: Op,
   threads_flavour: bool,
   script: Vec<(Side, In)>,
+  /// events an input emits synchronously inside its `actual_subscribe`, before
+  /// it hands the observer to its hot part (a cold or replaying input); where in
+  /// the merged timeline they fall is decided by the operator's subscription
+  /// order, so the timeline is *recorded*, not predicted
+  #[serde(default)]
+  cold_a: Vec<In>,
+  #[serde(default)]
+  cold_b: Vec<In>,
+  /// the cold part stops (like `from_iter`) once the observer reports finished
+  #[serde(default)]
+  polite_a: bool,
+  #[serde(default)]
+  polite_b: bool,
 }
+
+type Timeline = std::sync::Arc<std::sync::Mutex<Vec<(u64, Side, Ev)>>>;
+
+/// A user-written observable: emits `prefix` at subscription, then (unless the
+/// prefix ended in a terminal) subscribes the observer to `hot`.
+#[derive(Clone)]
+struct ColdHot<H, T> {
+  prefix: Vec<Ev>,
+  hot: H,
+  side: Side,
+  tl: Timeline,
+  polite: bool,
+  conv: fn(Val) -> T,
+}
+
+enum ColdSub<U> {
+  Done,
+  Hot(U),
+}
+
+impl<U: Subscription> Subscription for ColdSub<U> {
+  fn unsubscribe(self) {
+    if let ColdSub::Hot(u) = self {
+      u.unsubscribe()
+    }
+  }
+  fn is_closed(&self) -> bool {
+    match self {
+      ColdSub::Done => true,
+      ColdSub::Hot(u) => u.is_closed(),
+    }
+  }
+}
+
+impl<H, T, O> Observable<T, E, O> for ColdHot<H, T>
+where
+  H: Observable<T, E, O>,
+  O: Observer<T, E>,
+{
+  type Unsub = ColdSub<H::Unsub>;
+  fn actual_subscribe(self, mut observer: O) -> Self::Unsub {
+    for ev in self.prefix {
+      if self.polite && observer.is_finished() {
+        return ColdSub::Done;
+      }
+      self.tl.lock().unwrap().push((shared().stamp(), self.side, ev.clone()));
+      match ev {
+        Ev::Next(v) => observer.next((self.conv)(v)),
+        Ev::Err(e) => {
+          observer.error(e);
+          return ColdSub::Done;
+        }
+        Ev::Complete => {
+          observer.complete();
+          return ColdSub::Done;
+        }
+      }
+    }
+    ColdSub::Hot(self.hot.actual_subscribe(observer))
+  }
+}
+
+impl<H, T> ObservableExt<T, E> for ColdHot<H, T> {}
 
 pub struct C04;
 
@@ -301,7 +377,20 @@ impl Scenario for C04 {
       }
       script.push((side, ev));
     }
-    serde_json::to_value(Case { op, threads_flavour: op != Op::Buffer && rng.chance(1, 2), script }).unwrap()
+    let mut cold = |rng: &mut Rng| -> Vec<In> {
+      if !rng.chance(1, 3) {
+        return vec![];
+      }
+      let mut v: Vec<In> = (0..rng.below(4)).map(|_| In::Next).collect();
+      match rng.below(4) {
+        0 | 1 => v.push(In::Complete),
+        2 => v.push(In::Err),
+        _ => {}
+      }
+      v
+    };
+    let (cold_a, cold_b) = (cold(rng), cold(rng));
+    serde_json::to_value(Case { op, threads_flavour: op != Op::Buffer && rng.chance(1, 2), script, cold_a, cold_b, polite_a: rng.chance(1, 2), polite_b: rng.chance(1, 2) }).unwrap()
   }
 
   fn run(&self, case: &Value) -> Result<Outcome, String> {
@@ -309,9 +398,31 @@ impl Scenario for C04 {
     if case.op == Op::Buffer && case.threads_flavour {
       return Err("buffer has no _threads form".into());
     }
+    let valid_cold = |c: &Vec<In>| c.len() <= 5 && c.iter().rev().skip(1).all(|e| *e == In::Next);
+    if !valid_cold(&case.cold_a) || !valid_cold(&case.cold_b) {
+      return Err("cold prefix: items then at most one terminal".into());
+    }
     let w = World::new();
     let log = ProbeLog::new(false);
     let p = Probe(log.clone());
+    let tl: Timeline = Default::default();
+    let (mut na, mut nb) = (0i64, 0i64);
+    let mut mk = |side: Side, inp: &In| -> Ev {
+      match (side, inp) {
+        (Side::A, In::Next) => {
+          na += 1;
+          Ev::Next(Val::I(1000 + na))
+        }
+        (Side::B, In::Next) => {
+          nb += 1;
+          Ev::Next(Val::I(2000 + nb))
+        }
+        (_, In::Err) => Ev::Err(if side == Side::A { 1 } else { 2 }),
+        (_, In::Complete) => Ev::Complete,
+      }
+    };
+    let pa: Vec<Ev> = case.cold_a.iter().map(|i| mk(Side::A, i)).collect();
+    let pb: Vec<Ev> = case.cold_b.iter().map(|i| mk(Side::B, i)).collect();
     // inputs
     let mut la = Subject::<'static, Val, E>::default();
     let mut lb = Subject::<'static, Val, E>::default();
@@ -319,8 +430,13 @@ impl Scenario for C04 {
     let mut sa = SubjectThreads::<Val, E>::default();
     let mut sb = SubjectThreads::<Val, E>::default();
     let pair = |a: Val, b: Val| Val::pair(a, b);
+    fn id(v: Val) -> Val {
+      v
+    }
+    fn unit(_: Val) {}
     let _sub: Box<dyn std::any::Any> = if !case.threads_flavour {
-      let (a, b) = (la.clone(), lb.clone());
+      let a = ColdHot { prefix: pa, hot: la.clone(), side: Side::A, tl: tl.clone(), polite: case.polite_a, conv: id as fn(Val) -> Val };
+      let b = ColdHot { prefix: pb.clone(), hot: lb.clone(), side: Side::B, tl: tl.clone(), polite: case.polite_b, conv: id as fn(Val) -> Val };
       match case.op {
         Op::Merge => Box::new(a.merge(b).actual_subscribe(p)),
         Op::Zip => Box::new(a.zip(b).map(|(x, y)| Val::pair(x, y)).actual_subscribe(p)),
@@ -329,10 +445,14 @@ impl Scenario for C04 {
         Op::TakeUntil => Box::new(a.take_until(b).actual_subscribe(p)),
         Op::SkipUntil => Box::new(a.skip_until(b).actual_subscribe(p)),
         Op::Sample => Box::new(a.sample(b).actual_subscribe(p)),
-        Op::Buffer => Box::new(a.buffer(lbu.clone()).map(Val::L).actual_subscribe(p)),
+        Op::Buffer => {
+          let bu = ColdHot { prefix: pb, hot: lbu.clone(), side: Side::B, tl: tl.clone(), polite: case.polite_b, conv: unit as fn(Val) };
+          Box::new(a.buffer(bu).map(Val::L).actual_subscribe(p))
+        }
       }
     } else {
-      let (a, b) = (sa.clone(), sb.clone());
+      let a = ColdHot { prefix: pa, hot: sa.clone(), side: Side::A, tl: tl.clone(), polite: case.polite_a, conv: id as fn(Val) -> Val };
+      let b = ColdHot { prefix: pb, hot: sb.clone(), side: Side::B, tl: tl.clone(), polite: case.polite_b, conv: id as fn(Val) -> Val };
       match case.op {
         Op::Merge => Box::new(a.merge_threads(b).actual_subscribe(p)),
         Op::Zip => Box::new(a.zip_threads(b).map(|(x, y)| Val::pair(x, y)).actual_subscribe(p)),
@@ -344,43 +464,11 @@ impl Scenario for C04 {
         Op::Buffer => unreachable!(),
       }
     };
-    let mut m = Model {
-      op: case.op,
-      a_done: false,
-      b_done: false,
-      out_done: false,
-      qa: vec![],
-      qb: vec![],
-      la: None,
-      lb: None,
-      open: false,
-      pending: None,
-      gathered: vec![],
-    };
-    let site = format!("{:?}{}", case.op, if case.threads_flavour { "_threads" } else { "" });
-    let mut violation = None;
-    let mut trace = String::new();
-    let (mut na, mut nb) = (0i64, 0i64);
-    let mut post_terminal = 0u64;
-    let mut seen = 0usize;
+    let cold_events = tl.lock().unwrap().len() as u64;
+    // hot part of the timeline
     for (side, inp) in &case.script {
-      if matches!((side, m.a_done, m.b_done), (Side::A, true, _) | (Side::B, _, true)) {
-        post_terminal += 1;
-      }
-      let ev = match (side, inp) {
-        (Side::A, In::Next) => {
-          na += 1;
-          Ev::Next(Val::I(1000 + na))
-        }
-        (Side::B, In::Next) => {
-          nb += 1;
-          Ev::Next(Val::I(2000 + nb))
-        }
-        (_, In::Err) => Ev::Err(if *side == Side::A { 1 } else { 2 }),
-        (_, In::Complete) => Ev::Complete,
-      };
-      trace.push_str(&format!("{}{} ", if *side == Side::A { "a:" } else { "b:" }, fmt_ev(&ev)));
-      // drive the real operator
+      let ev = mk(*side, inp);
+      tl.lock().unwrap().push((shared().stamp(), *side, ev.clone()));
       match (side, &ev, case.threads_flavour, case.op == Op::Buffer) {
         (Side::A, Ev::Next(v), false, _) => la.next(v.clone()),
         (Side::A, Ev::Err(e), false, _) => la.clone().error(*e),
@@ -398,10 +486,42 @@ impl Scenario for C04 {
         (Side::B, Ev::Err(e), true, _) => sb.clone().error(*e),
         (Side::B, Ev::Complete, true, _) => sb.clone().complete(),
       }
-      let all = log.events();
-      let out: Vec<Ev> = all[seen..].to_vec();
-      seen = all.len();
-      let accept = m.step(*side, &ev);
+    }
+    // judge the recorded timeline
+    let mut m = Model {
+      op: case.op,
+      a_done: false,
+      b_done: false,
+      out_done: false,
+      qa: vec![],
+      qb: vec![],
+      la: None,
+      lb: None,
+      open: false,
+      pending: None,
+      gathered: vec![],
+    };
+    let site = format!("{:?}{}", case.op, if case.threads_flavour { "_threads" } else { "" });
+    let mut violation = None;
+    let mut trace = String::new();
+    let mut post_terminal = 0u64;
+    let timeline = tl.lock().unwrap().clone();
+    let recs = log.records();
+    if let Some(r) = recs.iter().find(|r| timeline.first().map_or(true, |t| r.seq < t.0)) {
+      violation = Some(Violation { rule: "c04.unexpected-output".into(), site: site.clone(), detail: format!("{} was delivered before any input had emitted", fmt_ev(&r.ev)) });
+    }
+    for (i, (stamp, side, ev)) in timeline.iter().enumerate() {
+      if violation.is_some() {
+        break;
+      }
+      if matches!((side, m.a_done, m.b_done), (Side::A, true, _) | (Side::B, _, true)) {
+        post_terminal += 1;
+      }
+      let cold = (i as u64) < cold_events;
+      trace.push_str(&format!("{}{}{} ", if *side == Side::A { "a:" } else { "b:" }, fmt_ev(ev), if cold { "(at subscription)" } else { "" }));
+      let until = timeline.get(i + 1).map_or(u64::MAX, |t| t.0);
+      let out: Vec<Ev> = recs.iter().filter(|r| r.seq > *stamp && r.seq < until).map(|r| r.ev.clone()).collect();
+      let accept = m.step(*side, ev);
       if !accept.contains(&out) {
         violation = Some(Violation {
           rule: "c04.unexpected-output".into(),
@@ -415,7 +535,7 @@ impl Scenario for C04 {
         });
         break;
       }
-      m.commit(*side, &ev, &out);
+      m.commit(*side, ev, &out);
     }
     let evs = log.events();
     let h = hash_mix(hash_str(&trace), hash_str(&fmt_trace(&evs)));
@@ -427,7 +547,7 @@ impl Scenario for C04 {
       nontrivial: case.script.iter().any(|(s, _)| *s == Side::A) && case.script.iter().any(|(s, _)| *s == Side::B),
       sim_ns: 0,
       steps: case.script.len() as u64,
-      faults: vec![("event_after_input_terminal", post_terminal)],
+      faults: vec![("event_after_input_terminal", post_terminal), ("input_emits_inside_its_subscription(cold/replaying input)", cold_events)],
       reach: vec![],
       resolved: None,
       sample: format!("{}: {} => [{}]", site, trace.trim(), fmt_trace(&evs)),
